@@ -15,6 +15,7 @@ EXPLANATION = (
     "semantics are delegated to std.")
 ASSUMPTIONS = ["std HashMap: insert replaces, remove returns the stored value, entry never overwrites an occupied slot", "TypeId uniquely names a type"]
 TRUSTED = ["rustc nightly MIR construction", "shred-facts driver", "shredlint analyses"]
+TECHNIQUE = 'static: dominance of assert_same_type_id over table access, decision table of the assertion, key/value terms of every table insertion, guard-construction and unchecked-downcast site inventory, constructor wiring, derived Eq/Hash check, compile_fail witness'
 RULE_TEXT = "one obligation per id-taking method, insertion site, guard construction site, unchecked downcast site, key wiring site"
 
 
